@@ -7,6 +7,7 @@ From K Require Import Proofs.StepRefinesCtl Proofs.StepRefines2.
 From K Require Import Proofs.StepRefines4.
 From K Require Import Proofs.StepRefinesL.
 From K Require Import Proofs.MovExtProofs.
+From K Require Import Proofs.StepRefines6.
 Open Scope Z_scope.
 
 (* MOV Rs,Rd (B/W/L): the value of the source lane is copied unchanged into the destination lane, N and Z
@@ -345,6 +346,16 @@ Theorem mov_displacement24_store :
     then_charge (option_map (fun s2 => with_ccr (mov_ccr z (reg z s (nib op2 4)) (ccr s)) s2) (mem_write z s1 a (reg z s (nib op2 4)))) (mov_charge z a 4 0).
 Proof. exact mov_disp24_store_proof. Qed.
 
+(* MOV.L #xx:32,ERd - all three instruction words in memory, any state *)
+Theorem step_mov_immediate_long :
+  forall s w h l w3 w4 imm rd n,
+    cpu_ok s -> bus_bytes_ok s -> fault s = false -> pc s mod 2 = 0 -> 0 <= pc s -> pc s + 6 < 4294967296 ->
+    mem_read SW s (pc s) = Some w -> mem_read SW s (pc s + 2) = Some h -> mem_read SW s (pc s + 4) = Some l ->
+    decode_ref w h l w3 w4 = Some (IMovImm SL imm rd, 6) ->
+    cs KI 3 (post_fetch3 s) = Ok n (post_fetch3 s) ->
+    exists s', sem_ref (IMovImm SL imm rd) 6 s = Some s' /\ step s = Ok n (set_opc (pc s + 4) s').
+Proof. exact step_mov_imm_l_proof. Qed.
+
 Print Assumptions mov_register_refines.
 Print Assumptions mov_flags_rule.
 Print Assumptions byte_lane_read.
@@ -381,3 +392,4 @@ Print Assumptions mov_absolute24_load.
 Print Assumptions mov_absolute24_store.
 Print Assumptions mov_displacement24_load.
 Print Assumptions mov_displacement24_store.
+Print Assumptions step_mov_immediate_long.
